@@ -157,7 +157,10 @@ def check_move(ctx, res, zdir, cfg, files, rows, row, variant, marker, model_req
         if k <= 0:
             res.failures.append(C.Failure(f"destination page did not grow (old {len(old)} lines, new {len(new)})", {**case, "kind": "dest_lost", "got": after_dst[:1500]}))
             return
-        pos = next((i for i in range(len(old) + 1) if new[:i] == old[:i] and new[i + k:] == old[i:]), None)
+        # (when the note ends with a line equal to the destination's last line the split point is ambiguous: take the one
+        # whose inserted block starts with the note's first line)
+        cands = [i for i in range(len(old) + 1) if new[:i] == old[:i] and new[i + k:] == old[i:]]
+        pos = next((i for i in cands if row["zid"] in next((l for l in new[i : i + k] if l != ""), "")), cands[0] if cands else None)
         if pos is None:
             res.failures.append(C.Failure("destination page: an existing line was changed or lost", {**case, "kind": "dest_lost", "got": after_dst[:1500], "old": before_dst[:1500]}))
             return
@@ -216,13 +219,20 @@ def one_dir(ctx, res, rng, d):
     model_reqs = []
     zdir.mkdir(parents=True)
     files = add_case_twins(rng, add_extended_zids(rng, add_mentions(rng, add_tag_lookalikes(rng, G.gen_dir(rng, npages=(2, 4), with_zid=True, sections=True, date_prob=0.1, far_dates=False)))))
+    # an indented blank line inside a note is part of its body (paragraph break)
+    for rel in list(files):
+        ls = files[rel].split("\n")
+        for a, b in reversed(H.item_spans(ls)):
+            if b - a > 2 and rng.random() < 0.4:
+                ls.insert(a + 2, "  ")
+        files[rel] = "\n".join(ls)
     # every page holds at least one multi-line note
     for rel in list(files):
         ls = files[rel].split("\n")
         if not any(b - a > 1 for a, b in H.item_spans(ls)):
             sp = H.item_spans(ls)
             if sp:
-                ls.insert(sp[0][1], "  * a bullet of its own k::zz")
+                ls.insert(sp[0][1], f"  * a bullet of its own k::zz {rel}")
                 files[rel] = "\n".join(ls)
     G.write_dir(zdir, files)
     (zdir / "made.zot").write_text("# TEMPLATE made\n\n## {{ name }}\n")
@@ -281,6 +291,12 @@ def body(ctx: C.Ctx, proof: C.ProofStatus) -> C.Result:
 
 
 def classify(f: C.Failure, entry: dict) -> bool:
+    case = f.case if isinstance(f.case, dict) else {}
+    if entry.get("classifier") == "dest_note_with_whitespace_only_line":
+        # exactly this finding: the destination page holds a whitespace-only (not empty) line, i.e. an indented blank line inside
+        # one of its notes, and the damage is confined to the destination
+        dest_text = case.get("dest_text") or (case.get("files") or {}).get(case.get("dest"), "")
+        return case.get("kind") in ("dest_lost", "dest_note", "invalid_page", "conserve") and any(l != "" and l.strip() == "" for l in (dest_text or "").split("\n"))
     return False
 
 
